@@ -50,6 +50,8 @@ Inductive weff :=
 | ERejected (pi i : nat) (e : option ev)       (* notify(EventRejectedEvent(listener, e)) *)
 | EEpipe (pi i : nat)
 | EWriteError (pi : nat)                       (* dispatch(): OSError from _dispatchEvent, logger.error *)
+| ERefused (pi : nat)                          (* remove_process_group answered False: listeners not stopped *)
+| ERegroup (pi : nat)                          (* pool pi removed from / added to the process groups *)
 | ERaise                                       (* an exception leaves the operation *)
 | EInapplicable.
 
@@ -407,6 +409,8 @@ Definition weff_eqb (a b : weff) : bool :=
   | ERejected p i e, ERejected q j f => Nat.eqb p q && Nat.eqb i j && option_eqb Z.eqb e f
   | EEpipe p i, EEpipe q j => Nat.eqb p q && Nat.eqb i j
   | EWriteError p, EWriteError q => Nat.eqb p q
+  | ERefused p, ERefused q => Nat.eqb p q
+  | ERegroup p, ERegroup q => Nat.eqb p q
   | ERaise, ERaise | EInapplicable, EInapplicable => true
   | _, _ => false
   end.
